@@ -154,6 +154,56 @@ def metric_vs_displacements(d, tol=0.12):
     return result("covariant metric reproduces the scalar products of the displacements between neighbouring grid points", n, fails, worst, tol)
 
 
+def hy_ylow_vs_displacements(d, tol=0.05):
+    """hy at the y-faces, INCLUDING the faces shared with the neighbouring region: hy_ylow dy is
+    the path centre(j-1) -> face(j) -> centre(j) (two half chords), the previous centre being
+    the lower neighbour's last one at a join (cells in the radial row touching an X-point
+    excepted: the metric is singular there)."""
+    fails, n, worst = [], 0, 0.0
+    byid = _byid(d)
+    for r in _regions(d):
+        m = r["mla"]
+        if "hy" not in m or "ylow" not in m["hy"]:
+            continue
+        R, Z = m["Rxy"], m["Zxy"]
+        hy, dy = m["hy"]["ylow"], m["dy"]["ylow"]
+        nx, nyp = hy.shape
+        ok_rows = np.ones(nx, dtype=bool)
+        ri = r["radialIndex"]
+        for lst in (r["xPointsAtStart"], r["xPointsAtEnd"]):
+            if ri < len(lst) and lst[ri] is not None:
+                ok_rows[0] = False
+            if ri + 1 < len(lst) and lst[ri + 1] is not None:
+                ok_rows[-1] = False
+        for j in range(nyp):
+            if 0 < j < nyp - 1:
+                prevc = (R["centre"][:, j - 1], Z["centre"][:, j - 1])
+                nextc = (R["centre"][:, j], Z["centre"][:, j])
+                where = "interior face"
+            elif j == 0 and r["connections"].get("lower") is not None:
+                nb = byid[r["connections"]["lower"]]["mla"]
+                prevc = (nb["Rxy"]["centre"][:, -1], nb["Zxy"]["centre"][:, -1])
+                nextc = (R["centre"][:, 0], Z["centre"][:, 0])
+                where = "join with the lower neighbour"
+            elif j == nyp - 1 and r["connections"].get("upper") is not None:
+                nb = byid[r["connections"]["upper"]]["mla"]
+                prevc = (R["centre"][:, -1], Z["centre"][:, -1])
+                nextc = (nb["Rxy"]["centre"][:, 0], nb["Zxy"]["centre"][:, 0])
+                where = "join with the upper neighbour"
+            else:
+                continue
+            if np.shape(prevc[0]) != np.shape(nextc[0]):
+                continue
+            path = np.hypot(R["ylow"][:, j] - prevc[0], Z["ylow"][:, j] - prevc[1]) + np.hypot(nextc[0] - R["ylow"][:, j], nextc[1] - Z["ylow"][:, j])
+            code = hy[:, j] * dy[:, j]
+            err = np.where(ok_rows, np.abs(code / path - 1.0), 0.0)
+            n += int(ok_rows.sum())
+            worst = max(worst, float(err.max()))
+            for i in np.argwhere(err > tol)[:2].reshape(-1):
+                fails.append(dict(region=r["name"], where=where, i=int(i), j=int(j), hy_dy=float(code[i]), measured_path=float(path[i])))
+    return result("hy at the y-faces (joins included) x dy = centre-to-centre path through the face", n, fails, worst, tol)
+
+
 def g23_vs_zshift(d, tol=0.15):
     """g_23 = g_33 * d(zShift)/dy with the zShift stored in the same grid (centre and xlow)."""
     fails, n, worst = [], 0, 0.0
